@@ -444,6 +444,53 @@ func (vc *VC) run() (err error) {
 		vc.hasPanicsIff = true
 	}
 
+	// `synchronous`: the delivery happens in the calling goroutine before the function returns --
+	// no goroutine, channel operation or deferred call in the body, and every callee in the
+	// repository is synchronous too
+	if vc.spec.IsSync {
+		bad := 0
+		for _, b := range fn.Blocks {
+			for _, in := range b.Instrs {
+				what := ""
+				switch x := in.(type) {
+				case *ssa.Go:
+					what = "go statement"
+				case *ssa.Defer:
+					what = "deferred call"
+				case *ssa.Send:
+					what = "channel send"
+				case *ssa.Select:
+					what = "select"
+				case *ssa.MakeChan:
+					what = "channel creation"
+				case *ssa.UnOp:
+					if x.Op == token.ARROW {
+						what = "channel receive"
+					}
+				case *ssa.Call:
+					if callee := x.Common().StaticCallee(); callee != nil && !x.Common().IsInvoke() {
+						if sp := vc.P.findSpec(callee); sp != nil && !sp.Extern && !sp.IsSync && !sp.Pure && !sp.Trusted {
+							what = "call of " + sp.Name + ", whose contract is not marked synchronous"
+						} else if sp == nil && callee.Pkg != nil && strings.HasPrefix(callee.Pkg.Pkg.Path(), logPath) {
+							what = "call of " + vc.P.specName(callee) + ", which has no contract"
+						}
+					}
+				}
+				if what != "" {
+					bad++
+					vc.curBlock = b
+					o := vc.oblige("synchronous", vc.srcLabel(in), vc.spec.Synchronous, "true", "false", "no "+what+" on a synchronous delivery path", in.Pos())
+					o.Static = "fails"
+					vc.curBlock = nil
+				}
+			}
+		}
+		if bad == 0 {
+			o := vc.oblige("synchronous", "", vc.spec.Synchronous, "true", "true", "the body contains no go statement, channel operation or deferred call, and calls only synchronous functions", fn.Pos())
+			o.Static = "holds"
+		}
+	}
+
 	blockR := map[*ssa.BasicBlock]string{}
 	exitSt := map[*ssa.BasicBlock]*State{}
 	edgeCond := func(p, s *ssa.BasicBlock) string {
